@@ -193,14 +193,17 @@ class IsarParser(object):
     def __init__(self, warn=None):
         self.warn = warn
 
-    def parse(self, content, _, process_file):
+    def parse(self, content, path, process_file):
         # by default FileProcessor decodes files while opening in _process_file method,
         # but ElementTree doesn't like it. ElementTree handles the encoding on its own,
         # so it's OK to encode the data back into utf-8 before parsing
         content = content.encode('utf-8')
 
         def collect():
-            root = ElementTree.fromstring(content)
+            try:
+                root = ElementTree.fromstring(content)
+            except ElementTree.ParseError as e:
+                raise model.ParseError([(path, str(e))])
             for xml_elem in root.iterfind('.//*[@href]'):
                 yield make_include(xml_elem, process_file, self.warn)
 
